@@ -7,7 +7,7 @@
 (* the one that lets faulty fetches finish first (the order in which a failure   *)
 (* can do most harm to its parallel siblings).                                   *)
 EXTENDS FetchTree, Json, IOUtils
-CONSTANTS MaxF, OrdF
+CONSTANTS MaxF, OrdF, MultiKinds
 Shapes == ndJsonDeserialize(IOEnv.SHAPES)
 Kinds == {"Transport", "Non2xxNonJSON", "EmptyBody", "NonJSON", "ErrorsNoData", "DataNull", "WrongEntityCount",
           "PartialData", "Non2xxJSON", "RateLimited"}
@@ -23,7 +23,10 @@ Applicable(i, fl) == \A f \in 1..N(i) : fl[f] = "WrongEntityCount" => Shapes[i].
 Assignments(i) ==
   {fl \in [1..N(i) -> Kinds \cup {"ok"}] :
      /\ Applicable(i, fl)
-     /\ \/ Cardinality(F(fl, N(i))) \in 1..MaxF
+     /\ \/ Cardinality(F(fl, N(i))) = 1
+        \* several simultaneous failures: kinds restricted to MultiKinds (quick: one representative per class)
+        \/ /\ Cardinality(F(fl, N(i))) \in 2..MaxF
+           /\ \A f \in F(fl, N(i)) : fl[f] \in MultiKinds
         \/ \E k \in Kinds \ {"WrongEntityCount"} : \A f \in 1..N(i) : fl[f] = k}
 
 GenInit == /\ si \in 1..Len(Shapes)
